@@ -107,6 +107,26 @@ def guard_pktline_len(ctx, fn, bb):
     return True, ""
 
 
+def guard_fetch_connected(ctx, fn, bb):
+    """Session::fetching panics unless the session is connected: every Outbox::fetch (its only caller chain) is dominated by
+    `session.is_connected()` being true (a test for `!is_disconnected()` is weaker: sessions can also be initial/attempted)."""
+    db = ctx.db
+    tf = db.one(r"^radicle_node::service::Service::try_fetch$")
+    if tf is None:
+        return False, "Service::try_fetch not found"
+    eff = rules.call_blocks(tf, r"^radicle_node::service::io::Outbox::fetch$")
+    ok, a, bad = rules.dom_check(db, tf, eff, rules.is_bool(r"^radicle_node::service::session::Session::is_connected$", True))
+    if not (ok and a and eff):
+        return False, "Outbox::fetch in Service::try_fetch is not dominated by session.is_connected() == true"
+    callers = [f for f, b in db.call_sites(r"^radicle_node::service::session::Session::fetching$")]
+    if not all(re.search(r"service::io::Outbox::fetch$", db.root_of(f)["key"]) for f in callers):
+        return False, "Session::fetching has a caller other than Outbox::fetch"
+    sites = [f for f, b in db.call_sites(r"^radicle_node::service::io::Outbox::fetch$")]
+    if not all(db.root_of(f) is tf for f in sites):
+        return False, "Outbox::fetch has a caller other than Service::try_fetch"
+    return True, ""
+
+
 LOCAL_DB = "fails only on a local database/configuration fault, not on peer input"
 
 TABLE = [
@@ -123,7 +143,7 @@ TABLE = [
     (r"message::NodeAnnouncement::work$", r"unwrap:Result::expect", "SAFE", "scrypt parameters and output length are constants", None),
     (r"session::Session::queue_fetch$", r"panic:panicking::assert_failed", "SAFE", "the session is looked up by fetch.from in Service::queue_fetch", None),
     (r"session::Session::fetching$", r"panic:panicking::panic_fmt#0", "ASSUMED", "uniqueness relies on the Service.fetching/Session.fetching consistency invariant (C16, not decided)", None),
-    (r"session::Session::fetching$", r"panic:panicking::panic_fmt#1", "SAFE", "Outbox::fetch is dominated by session.is_connected() (verified by C16 dom:fetch:connected)", None),
+    (r"session::Session::fetching$", r"panic:panicking::panic_fmt#1", "GUARDED", "Outbox::fetch, its only caller, runs only behind session.is_connected()", guard_fetch_connected),
     (r"session::Session::(to_attempted|to_initial)$", r"panic:", "ASSUMED", "connection state machine driven by the reactor/wire layer, not by message contents", None),
     (r"^radicle_node::wire::serialize$", r"unwrap:Result::unwrap", "SAFE", "encoding into a Vec fails only when a message exceeds Size::MAX; every message the node builds is within the limit (C15 SIZE table)", None),
     (r"^<&str as radicle_node::wire::Encode>::encode$", r"panic:panicking::panic", "SAFE", "encode side only: strings come from Alias/UserAgent/hostnames bounded to <= 255 bytes by their parsers and decoders (u8 length prefix)", None),
